@@ -1,12 +1,13 @@
 #!/bin/bash
 # Evaluate kept seeded changes against the checks without touching /repo or /verif's evidence:
-# a copy of /verif (/tmp/verif-seeded) runs against a scratch worktree of /repo (/tmp/seeded-repo).
+# a copy of /verif (/tmp/verif-seeded$slot) runs against a scratch worktree of /repo (/tmp/seeded-repo$slot).
 #   tools/seeded_eval.sh <seeded-id> [<check> ...]     (results are copied back to /verif/seeded/<id>/)
 set -u
 id=$1; shift
-mkdir -p /tmp/verif-seeded
-rsync -a --delete --exclude target --exclude out --exclude .git --exclude replay /verif/ /tmp/verif-seeded/
-if [ ! -d /tmp/seeded-repo ]; then git -C /repo worktree add --detach /tmp/seeded-repo HEAD >/dev/null 2>&1; fi
-git -C /tmp/seeded-repo checkout -q --detach "$(git -C /repo rev-parse HEAD)" && git -C /tmp/seeded-repo checkout -- . && git -C /tmp/seeded-repo clean -fdq src
-VERIF_REPO=/tmp/seeded-repo python3 /tmp/verif-seeded/tools/seeded.py run "$id" "$@"
-cp /tmp/verif-seeded/seeded/$id/* /verif/seeded/$id/
+slot=${SEEDED_SLOT:-}
+mkdir -p /tmp/verif-seeded$slot
+rsync -a --delete --exclude target --exclude out --exclude .git --exclude replay /verif/ /tmp/verif-seeded$slot/
+if [ ! -d /tmp/seeded-repo$slot ]; then git -C /repo worktree add --detach /tmp/seeded-repo$slot HEAD >/dev/null 2>&1; fi
+git -C /tmp/seeded-repo$slot checkout -q --detach "$(git -C /repo rev-parse HEAD)" && git -C /tmp/seeded-repo$slot checkout -- . && git -C /tmp/seeded-repo$slot clean -fdq src
+VERIF_REPO=/tmp/seeded-repo$slot python3 /tmp/verif-seeded$slot/tools/seeded.py run "$id" "$@"
+cp /tmp/verif-seeded$slot/seeded/$id/* /verif/seeded/$id/
